@@ -42,6 +42,10 @@ STRENGTH = {
  "C01-w5-2": ("C01", "family thirty-quorum-results-with-70KB-perform-data (three disjoint pairs of oracles, every observation valid and under its limit)"),
  "C15-w5-1": ("C15", "one plug-in instance lives for the whole run; ReportingPlugin.ValidateObservation under one (sequence number, oracle) must give the decoder's verdict for every message"),
  "C03-w5-2": ("C03", "family two-versions-of-a-unit-with-another-unit-between (one log upkeep, log A at quorum at check blocks 100 and 102, log B at 99 / 101 / 103)"),
+ "C05-w6-2": ("C05", "family log-re-included-on-another-fork: the long-lived instances see a log (as result and as proposal) under one log block hash in one round and under another in the next (same transaction hash and index)"),
+ "C09-w6-2": ("C09", "op recov and family recovery-proposals-from-neighbouring-oracles-*: honest neighbours propose different missed logs in the same round through the recovery path, with liveness obligations; afterwards the rounds still work"),
+ "C18-w6-1": ("C18", "part E: 1 / workers / workers+2 / 3*workers contained pipeline panics in the shared runner, then a healthy check must be executed and Close must leave nothing"),
+ "C20-w6-1": ("C20", "families long-negative-broken-then-150-more-blocks and long-reached-then-150-surplus-blocks on the real ProgressTelemetry: Increment must return"),
  "C14-w4-1": ("C14", "family long-job-idle-then-burst (per-caller start delays): a long job, seconds of idleness, then a burst"),
 }
 res = {}
